@@ -117,14 +117,22 @@ def replay_index_case(case):
                           dict(bundle, exception="%s: %s" % (type(ex).__name__, ex))))
         # index alone: same objects, properties, types, lengths; data reads refused
         if not frec["marker"]:
-            for src_kind in ("path", "stream"):
+            entries = (("open", TdmsFile.open), ("read", TdmsFile.read), ("meta", TdmsFile.read_metadata),
+                       ("ctor", TdmsFile))
+            for src_kind, (api, entry) in [(s_, a_) for s_ in ("path", "stream", "fileobj") for a_ in entries]:
                 n += 1
+                fh2 = None
                 try:
-                    src = withidx + "_index" if src_kind == "path" else io.BytesIO(e.index)
-                    fo = TdmsFile.open(src, raw_timestamps=True)
+                    if src_kind == "path":
+                        src = withidx + "_index"
+                    elif src_kind == "stream":
+                        src = io.BytesIO(e.index)
+                    else:
+                        src = fh2 = open(withidx + "_index", "rb")
+                    fo = entry(src, raw_timestamps=True)
                     v = proj.project_file(fo, data=False)
                     if v != ref["meta"]:
-                        fails.append((sig("index-only-metadata", source=src_kind),
+                        fails.append((sig("index-only-metadata", source=src_kind, api=api),
                                       dict(bundle, expected=ref["meta"], observed=v)))
                     for g in fo.groups():
                         for ch in g.channels():
@@ -140,8 +148,11 @@ def replay_index_case(case):
                                     pass
                     fo.close()
                 except Exception as ex:  # noqa
-                    fails.append((sig("index-only-raised", source=src_kind, exception=type(ex).__name__),
+                    fails.append((sig("index-only-raised", source=src_kind, api=api, exception=type(ex).__name__),
                                   dict(bundle, exception="%s: %s" % (type(ex).__name__, ex))))
+                finally:
+                    if fh2 is not None:
+                        fh2.close()
         else:
             obs["index_only_with_marker_not_judged"] = 1
         # the same content written by TdmsWriter with its own index file
